@@ -124,8 +124,13 @@ class C11(ParserSessionProp):
             # raises for some category pair the sentences can reach (then the property's premise fails)
             bump(stats, 'evaluations')
             if not _grammar_raises(world, batch):
-                vio('returns', f'call raised {rec.exception[0]}: {rec.exception[1][:200]}',
-                    exc=rec.exception[0])
+                sig = {'exc': rec.exception[0]}
+                if rec.exception[0] == 'MaybeEncodingError' and 'RecursionError' in rec.exception[1]:
+                    # a worker could not pickle its result list: say how deep the deepest derivation is
+                    depth = max([_depth(a[2][0].tree) for a in alone if a[0] == 'ok' and a[2]] or [0])
+                    sig = {'exc': 'MaybeEncodingError', 'reason': 'RecursionError while pickling the result of a worker',
+                           'deepest_derivation': 'at least 250 levels' if depth >= 250 else f'{depth} levels'}
+                vio('returns', f'call raised {rec.exception[0]}: {rec.exception[1][:200]}', **sig)
             else:
                 bump(stats, 'calls_excused_grammar_raises')
             return out
@@ -198,9 +203,22 @@ class C11(ParserSessionProp):
         return out
 
 
+def _depth(tree):
+    """levels of Tree nodes on the longest root-to-leaf path (iterative)"""
+    best, stack = 0, [(tree, 1)]
+    while stack:
+        node, d = stack.pop()
+        best = max(best, d)
+        if not node.is_leaf:
+            stack.extend((c, d + 1) for c in node.children)
+    return best
+
+
 def _grammar_raises(world, batch):
     """does the grammar callable itself raise for some category pair reachable from
     the sentences' tags?  (evaluated with the reference chart, all tags admitted)"""
+    if world.spec['grammar'].get('kind') in ('synth', 'explosive'):
+        return False      # table lookups and arithmetic on category names: total functions
     for sid in sorted(set(batch)):
         n = world.n(sid)
         admitted = [set(range(len(world.categories))) for _ in range(n)]
